@@ -9,6 +9,56 @@ NOTE = ("Trusted: Coq 8.16.1 kernel + vm_compute; tools/gen_consts.py; the Rust 
 TECH = "machine-checked proof in Coq (Rocq) over a Gallina model + differential correspondence check against the Rust code"
 
 CLAIMED = {
+    "C03": {
+        "text": "Safety theorems (props/C03.v) over the Gallina lookup/handler model, for ARBITRARY states and events (any datagram from "
+                "any source in any order, duplicates, forged ids, timers): c03_yield_only_from_outstanding - every address a search "
+                "yields is in the values of a response whose transaction id is, at that moment, an outstanding get_peers query of "
+                "that very search; c03_unsolicited_rejected / c03_short_or_long_id_rejected - ids of wrong length or with an unknown "
+                "action prefix change nothing; c03_cross_search_isolation - a response never changes another search; "
+                "c03_announce_only_token_holders - at most 8 announce_peer, each to a token holder with its latest token, the "
+                "searched info-hash, our id and the configured/implied port, none when announcing was not requested; "
+                "c03_tokens_only_from_accepted - tokens are recorded only from accepted responses under the responder's (id, address). "
+                "Tie: simulated runs of the real node among 1..60 scripted responders under latency, loss, duplication, send "
+                "failures and injected forgeries (replays, flipped id bits, right id from another source, 7-byte ids, fabricated "
+                "responses); every handled event is replayed through the model in Coq (exact datagrams, yields, stream ends) and an "
+                "auditor checks every stream item and announce_peer of the real node against what it actually received.",
+        "ref": "7/C03", "axioms": "none",
+        "note_extra": "As the property is worded, a response is accepted on its id alone: the right id from another source is accepted (token filed under the forger's handle) - inside the property.",
+    },
+    "C12": {
+        "text": "Theorems (props/C12.v): c12_query_adds_nobody - for every state and query the set of (id,address) pairs in the routing "
+                "table is unchanged by handling it; c12_unsolicited_noop / c12_wrong_length_id - a response whose id is not 8 bytes or "
+                "whose action prefix is neither a live search's nor the refresh's leaves the whole node state unchanged and produces "
+                "nothing; c12_named_offer_is_questionable / c12_hearsay_never_promotes - named nodes are offered as questionable and "
+                "such an offer never makes a contact good; c12_table_invariant_every_event - after every handler event (responses "
+                "naming arbitrary nodes included) the node's table satisfies the C08 invariant: no own id, no router address, "
+                "placement, no duplicates. Tie: trace validation of the real handler in simulated runs with unsolicited queries and "
+                "responses (0/2/8/12-byte ids, forged prefixes, replays) and an audit of the real table operations (hook) and "
+                "contacts (API) around every injected datagram.",
+        "ref": "7/C12", "axioms": "none",
+        "note_extra": "Inside the property's wording: a response carrying a live search's or the refresh's 5-byte prefix with any 3-byte suffix from any source does admit its sender as good.",
+    },
+    "C16": {
+        "text": "Theorems (props/C16.v) over the repaired handler model: c16_early_search_queued - before the first bootstrap conclusion a "
+                "search request produces nothing and joins the queue; c16_conclusion_releases_queue - at the first conclusion "
+                "(Bootstrapped, or IdleBeforeRebootstrap so that a failing first attempt cannot starve it) the queued searches are "
+                "started in request order by the very function that starts a search received at that moment; c16_pinned_refuted - "
+                "the pinned handler ends such a search at once with no query (the genuine defect repaired in /repo commit e62c27e). "
+                "Tie: trace validation; on the real node the same non-announcing search is issued at t=0, ms later, mid-bootstrap and "
+                "30 s after completion and the yielded peer sets are compared.",
+        "ref": "7/C16", "axioms": "none", "note_extra": "",
+    },
+    "C18": {
+        "text": "c18_one_chain: after ANY list of events (datagrams, timers, searches, any number of bootstrap completions and losses) "
+                "at most one table-refresh entry is pending in the timer of the repaired handler model - proved as an invariant over "
+                "every run; hence refresh rounds occur at most once per firing of that single 6 s timer plus once per bootstrap "
+                "completion. c18_pinned_refuted: without the cancellation three completions leave three pending refresh timers "
+                "(the genuine defect repaired in /repo commit 8da3607). Tie: 6 s read from the source; trace validation; the "
+                "refresh-round and pending-timer hooks of simulated runs with re-bootstraps every ~5 s and outages (thorough: up to "
+                "6 virtual hours, thousands of cycles) checked for 'two rounds < 6 s apart only with a completion in between'.",
+        "ref": "7/C18", "axioms": "none",
+        "note_extra": "The window-rate form of the bound (#rounds <= floor((b-a)/6s)+1+#completions) is checked on the runs, the theorem is the one-chain invariant it follows from.",
+    },
     "C05": {
         "text": "Theorems (props/C05.v) over the Gallina handler model for ALL node states and ALL messages: a read-only node never "
                 "replies and is unchanged (c05_read_only_silent); a serving node produces exactly one reply per query, echoing the "
